@@ -61,6 +61,18 @@ def run(prop, tier, seed, ctx):
     for m in mism:
         ctx.violation(key_of(m), "simulated behaviour, after step %d (%s) the real state differs from the specification in %s" % (
             m["step"], m["action"]["op"], m["fields"]), m)
+    # ---- the core commands, one cell per command x message mode x number of items x formatter (specs/CoreCommands.tla)
+    kres = tlc.run("CoreCommands", "MC_CoreCommands.cfg", workers=2, timeout=300)
+    tlc.require_ok(kres, "MC_CoreCommands.cfg")
+    ctx.add_tlc(kres, "core commands table MC_CoreCommands.cfg")
+    kcases = list(enumerate(kres.records))
+    kmis = shard_map("bind.lifecycle", "commands_chunk", kcases)
+    ctx.cov["replayed_cases"] += len(kcases)
+    ctx.count(len(kcases), (json.dumps(r["cell"], sort_keys=True) for _, r in kcases))
+    for m in kmis:
+        ctx.violation("C20|command|%s|%s" % (m["cell"]["cmd"], "+".join(m["fields"])),
+                      "%s(%s) with %d item(s): %s (observed %s, expected messages %s)" % (
+                          m["cell"]["cmd"], m["cell"]["mode"], m["cell"]["n"], m["fields"], m["observed"], m["expected_messages"]), m)
     for mcfg, inv in (MUTANTS if tier == "thorough" else MUTANTS[:6]):
         mres = tlc.run("Lifecycle", mcfg, workers=8, timeout=600)
         if inv not in mres.violated:
